@@ -236,6 +236,11 @@ pub fn build(seed: u64, tier: Tier) -> Corpus {
     let (lo, hi) = tier.pick((-3, 3), (-6, 6));
     specs.push(Spec::new("slice", "slice", &slice_grammar(lo, hi)));
     specs.push(Spec::new("stackbuiltin", "slice", &stack_builtin_grammar()));
+    // zero-width repetition bodies that make progress on the stack only (pest accepts them)
+    let zero = "dz_star = { PUSH(\"a\") ~ PUSH(\"b\") ~ DROP* ~ PEEK_ALL ~ \"c\" }\ndz_plus = { PUSH(\"a\"+) ~ PUSH(\"b\"+) ~ \"-\" ~ undo+ ~ PEEK_ALL ~ \"!\" }\nundo = { DROP }\ndz_pred = ${ (PUSH(\"a\") ~ \",\")* ~ (&\"c\" ~ DROP)* ~ PEEK_ALL ~ \"c\" }";
+    if Grammar::parse(zero).is_ok() {
+        specs.push(Spec::new("stackzero", "stack", zero));
+    }
     {
         let mut s = Spec::new("stackscope", "stack", &stackscope_grammar());
         s.forms = true;
@@ -260,7 +265,7 @@ pub fn build(seed: u64, tier: Tier) -> Corpus {
     // hand-written cycles through options, repetitions, choices and skip rules
     let cyc = "a = { \"a\" ~ b* }\nb = { \"b\" ~ c? }\nc = { a+ | \"(\" ~ d ~ \")\" }\nd = _{ (c | e)* }\ne = ${ \"e\" ~ a? }\nWHITESPACE = _{ \" \" }\nCOMMENT = { \"#\" ~ (!\"#\" ~ ANY)* ~ \"#\" }";
     // a long top-down cycle through sequences, choices and options only, leaf rules last
-    let expr = "expr = { term ~ (add_op ~ term)* }\nterm = { factor ~ (mul_op ~ factor)* }\nfactor = { neg? ~ primary }\nprimary = { paren | number | ident }\nparen = { \"(\" ~ expr ~ \")\" }\nnumber = @{ ASCII_DIGIT+ }\nident = @{ ASCII_ALPHA+ }\nadd_op = { \"+\" | \"-\" }\nmul_op = { \"*\" | \"/\" }\nneg = { \"-\" }\nWHITESPACE = _{ \" \" }";
+    let expr = "expr = { term ~ (add_op ~ term)* }\nterm = { factor ~ (mul_op ~ factor)* }\nfactor = { neg? ~ primary }\nprimary = { paren | number | ident }\nparen = { \"(\" ~ expr ~ \")\" }\nnumber = @{ ASCII_DIGIT+ }\nident = @{ ASCII_ALPHA+ }\nadd_op = { \"+\" | \"-\" }\nmul_op = { \"*\" | \"/\" }\nneg = { \"-\" }\nrest = { \";\" ~ (!NEWLINE ~ !ASCII_HEX_DIGIT ~ ANY)* }\nWHITESPACE = _{ \" \" }";
     for (vn, opts) in OPTION_SETS {
         let mut s = Spec::new(&format!("optex_{}", vn), "options", expr);
         s.options = opts.iter().map(|o| o.to_string()).collect();
